@@ -444,7 +444,7 @@ func cloneRHS(r *ref.RHS) *ref.RHS {
 // genEBNF draws a specification whose rules are all reachable and productive by construction: the rules x and y use
 // literals only, start uses literals, x and y; every bracket operator occurs, often several times on similar operands.
 func genEBNF(t *rapid.T) *ref.SpecModel {
-	lits := []string{"a", "b", "c"}
+	lits := rapid.SampledFrom([][]string{{"a", "b", "c"}, {"a", "b", "c"}, {"{", "}", "z"}, {"(", ")", "z"}, {"[", "]", "z"}, {"<", ">", "="}, {"+", "-", "*"}, {"if", "else", ";"}}).Draw(t, "literals")
 	var operands []*ref.RHS
 	var rhs func(depth int, nts []string) *ref.RHS
 	rhs = func(depth int, nts []string) *ref.RHS {
